@@ -210,6 +210,26 @@ def run_case(case):
     if strat.endswith("_plot"):
         import matplotlib.pyplot as plt
         plt.close("all")
+    twice_fail = None
+    if c.get("twice"):
+        # the driver is called a SECOND time on the same object with the same arguments: what the first call left behind must not
+        # matter - the second call is judged like any run (stop rule, error formula, array lengths) and must equal the run of a fresh object
+        first_log = list(log)
+        del log[:]
+        R = sa.performSpatiallyAdaptiv(lm[0], lm[1], eo, tol=tol, max_evaluations=mx, min_evaluations=mn, print_output=False,
+                                       recalculate_frequently=strat.endswith("_recalc"),
+                                       evaluation_points=EP if strat.endswith("_ep") else None)
+        sa2, eo2, lm2, op2, ref2, seen2, nrm2 = _make(strat, kind, norm)
+        Rf = sa2.performSpatiallyAdaptiv(lm[0], lm[1], eo2, tol=tol, max_evaluations=mx, min_evaluations=mn, print_output=False,
+                                         recalculate_frequently=strat.endswith("_recalc"),
+                                         evaluation_points=EP if strat.endswith("_ep") else None)
+        if list(R[6]) != list(Rf[6]) or not np.allclose(np.asarray(R[5], dtype=float), np.asarray(Rf[5], dtype=float), rtol=1e-12, atol=0) or \
+                not np.allclose(np.asarray(R[3], dtype=float), np.asarray(Rf[3], dtype=float), rtol=1e-12, atol=0):
+            twice_fail = fail("second_call_on_used_object", "second performSpatiallyAdaptiv on one object: points %r errors %r result %r; fresh object: points %r errors %r result %r"
+                              % (list(R[6]), [float(e) for e in R[5]], R[3], list(Rf[6]), [float(e) for e in Rf[5]], Rf[3]), key)
+        # the distinct-evaluation count of the second call cannot be observed through the shared integrand cache: entries 2 of the log
+        # are replaced by the reported counts so that only the other oracles judge the second call
+        log[:] = [x if x[0] != "E" else (x[0], x[1], None) + tuple(x[3:]) for x in log]
     evs = [x for x in log if x[0] == "E"]
     pts, errs, surplus = list(R[6]), list(R[5]), list(R[7])
     fails = []
@@ -237,7 +257,11 @@ def run_case(case):
     seq = "".join(x[0] for x in log)
     if seq != "E" + "RE" * (len(evs) - 1):
         fails.append(fail("evaluate_refine_sequence", "sequence %s" % seq, key))
+    if twice_fail is not None:
+        fails.append(twice_fail)
     for k, x in enumerate(evs):
+        if x[2] is None:
+            break
         if k < len(pts) and x[2] != pts[k]:
             fails.append(fail("distinct_evaluation_count", "evaluation %d: reported %r points, %d distinct integrand evaluations" % (k, pts[k], x[2]), key))
             break
@@ -254,7 +278,7 @@ def run_case(case):
         fails.append(fail("returned_result", "returned %r, result at the last evaluation %r" % (R[3], evs[-1][3]), key))
     if sa.refinements < 0 or len([x for x in log if x[0] == "R"]) != len(evs) - 1:
         fails.append(fail("refine_count", "%d refine calls for %d evaluations" % (len([x for x in log if x[0] == 'R']), len(evs)), key))
-    return {"failures": fails, "canon": (strat, kind, norm, tol, mn, mx, mt, c.get("clock")), "outcome": (len(evs), tuple(pts)),
+    return {"failures": fails, "canon": (strat, kind, norm, tol, mn, mx, mt, c.get("clock"), bool(c.get("twice"))), "outcome": (len(evs), tuple(pts)),
             "nontrivial": len(evs) > 1, "evals": len(evs), "pts": pts, "errs": [float(e) for e in errs],
             "final": [float(x) for x in np.asarray(R[3], dtype=float).ravel()]}
 
@@ -290,6 +314,14 @@ def main(ctx):
             else:
                 mx_eff = mx
             cases.append({"config": dict(c0, tol=tol, min_evaluations=mn, max_evaluations=mx_eff)})
+    # a second call of the driver on the same object
+    for bc, res in zip(base, results0):
+        nk = res.get("pts") or []
+        c0 = bc["config"]
+        if len(nk) < 3 or c0["norm"] != "inf" or c0["integrand"] not in ("peak", "vec", "disc") or c0["strategy"].endswith("_plot"):
+            continue
+        for tol, mx in ((-1, nk[min(3, len(nk) - 1)]), (1e-1, nk[-1])):
+            cases.append({"config": dict(c0, tol=tol, max_evaluations=mx, twice=True)})
     # time budgets: a budget no run can exhaust on the real clock (must change nothing), and - on a virtual clock owned by the explorer,
     # one unit per evaluation - every budget that expires after evaluation 0, 1, 2, 3 combined with the other limits
     ntime = 0
